@@ -9,15 +9,34 @@ import z3
 from pycaption.base import CaptionNode, Caption
 from pycaption.dfxp.base import DFXPWriter, RegionCreator
 from pycaption.dfxp.extras import LegacyDFXPWriter
+from pycaption.sami import SAMIWriter
 from pyvc import heap
 from pyvc.heap import SymList, SymRef, declare, loop_rule, SEQ, INT, heap_array
 from pyvc.interp import SymObject
 from pyvc.sym import cur, mkint, zint, Inapplicable
 
-declare(CaptionNode, type_="int", start="bool", content="id", layout_info="bool")
+
+
+class StyleContent(heap.SymId):
+    """the content dict of a style node, opaque: membership of a key is a free choice, values are
+    tag-free text (A: class names and style values contain no markup)"""
+
+    def contains(self, key):
+        return bool(cur().choose(2, f"has_{key}"))
+
+    def sym_getitem(self, interp, k):
+        return Markup(0, 0, True)
+
+    def __hash__(self):
+        return id(self)
+
+
+heap.CUSTOM_KINDS["style"] = StyleContent
+declare(CaptionNode, type_="int", start="bool", content="style", layout_info="bool")
 declare(RegionCreator)
 declare(DFXPWriter, open_span="bool", write_inline_positioning="bool", region_creator="ref:RegionCreator")
 declare(LegacyDFXPWriter, open_span="bool")
+declare(SAMIWriter, open_span="bool")
 TEXT, STYLE, BREAK = CaptionNode.TEXT, CaptionNode.STYLE, CaptionNode.BREAK
 
 
@@ -140,7 +159,52 @@ def span_balance(W):
     return contract
 
 
+def sami_span_balance(c):
+    """SAMIWriter._recreate_text for any node list whose style nodes alternate start, end, ... (flat
+    spans), entered with no span open: as many '</span>' as '<span' - plus one unclosed '<span' iff
+    open_span is left set -, and when the last span was ended no span is open afterwards"""
+    W = SAMIWriter
+    qual = "pycaption.sami:SAMIWriter"
+    p = cur()
+    nodes = SymList(z3.Const("nodes", SEQ), CaptionNode)
+    n = z3.Length(nodes.t)
+    TY, STARTS = heap_array(p, CaptionNode, "type_"), heap_array(p, CaptionNode, "start")
+    w = SymRef(W, z3.Int("writer"))
+    p.assume(z3.Not(heap_array(p, W, "open_span")[w.ref]))
+    FLAT = z3.Function("FLAT", INT, INT)
+    p.assume(FLAT(0) == 0)
+
+    def fdef(k):
+        x = nodes.t[k]
+        st = z3.If(TY[x] != STYLE, FLAT(k),
+                   z3.If(STARTS[x], z3.If(FLAT(k) == 0, 1, 2), z3.If(FLAT(k) == 1, 0, 2)))
+        return FLAT(k + 1) == z3.If(FLAT(k) == 2, 2, st)
+
+    def inv(S):
+        S.p.assume(fdef(S.i))
+        S.p.assume(z3.Or(FLAT(S.i) == 0, FLAT(S.i) == 1, FLAT(S.i) == 2))
+        line = Markup.of(S.local("line"))
+        os_ = z3.Select(S.field(W, "open_span"), w.ref)
+        return [("flat_spans_are_balanced", z3.Implies(FLAT(S.i) != 2, z3.And(line.depth() == z3.If(os_, 1, 0),
+                                                                              z3.Implies(os_, FLAT(S.i) == 1))))]
+
+    def havoc_line(p_, name):
+        o, cl = p_.fresh_int("opens"), p_.fresh_int("closes")
+        p_.assume(z3.And(o >= 0, cl >= 0))
+        return Markup(mkint(o), mkint(cl), True)
+    c.interp.loop_hooks[(qual + "._recreate_text", 1)] = loop_rule(
+        "text.loop", inv, locals_={"line": ("custom", havoc_line)}, fields=[(W, "open_span")])
+    c.interp.contracts.update({qual + "._encode": text_piece, qual + "._recreate_style": style_dict})
+    r = Markup.of(c.call(W._recreate_text, w, nodes, compare=False))
+    os_end = z3.Select(heap_array(p, W, "open_span"), w.ref)
+    c.ensure("flat_spans_give_balanced_markup", z3.Implies(FLAT(n) != 2, r.depth() == z3.If(os_end, 1, 0)))
+    c.ensure("closed_spans_leave_no_span_open", z3.Implies(FLAT(n) == 0, z3.Not(os_end)))
+
+
 def prove_span_balance(ctx):
+    ctx.prove("sami.SAMIWriter._recreate_text/span_balance", sami_span_balance,
+              functions=[SAMIWriter._recreate_text, SAMIWriter._recreate_line_style, SAMIWriter._recreate_span],
+              setup_interp=setup, crosscheck=False)
     ctx.prove("dfxp.DFXPWriter._recreate_text/span_balance", span_balance(DFXPWriter),
               functions=[DFXPWriter._recreate_text, DFXPWriter._recreate_span], setup_interp=setup, crosscheck=False)
     ctx.prove("dfxp.LegacyDFXPWriter._recreate_text/span_balance", span_balance(LegacyDFXPWriter),
